@@ -248,13 +248,24 @@ func SigScripts(t *rapid.T) SigProgram {
 		lock = append(lock[:pos:pos], append([][]byte{chunk}, lock[pos:]...)...)
 		desc += "+sep"
 	}
-	var lockBytes []byte
+	var lockBody []byte
 	for _, c := range lock {
-		lockBytes = append(lockBytes, c...)
+		lockBody = append(lockBody, c...)
 	}
-	tx.In[idx].PrevScript = pbt.Hex(lockBytes)
-	tx.In[idx].PrevSats = amount
-
+	// legacy digests remove pushes of the signature from the script code: sometimes put the
+	// very signature that is being checked into the locking script as well (<sig> DROP ...)
+	embed := -1
+	if !forkFlag && len(slots) > 0 && rapid.IntRange(0, 5).Draw(t, "embed_sig") == 0 {
+		embed = rapid.IntRange(0, len(slots)-1).Draw(t, "embed_slot")
+		desc += "+sig-in-lock"
+	}
+	buildLock := func(sigs map[int][]byte) []byte {
+		if embed < 0 {
+			return lockBody
+		}
+		l := append(Push(sigs[embed], 0), 0x75)
+		return append(l, lockBody...)
+	}
 	var build func(sigs map[int][]byte) []byte
 	// pass 1: placeholders, learn the script code of every slot
 	ph := map[int][]byte{}
@@ -293,14 +304,16 @@ func SigScripts(t *rapid.T) SigProgram {
 	}
 	rc := &recChecker{codes: map[byte][]byte{}}
 	pass1Flags := flags & (interp.FlagForkID | interp.FlagAfterGenesis)
-	interp.VerifyScript(build(ph), lockBytes, pass1Flags, rc, false, interp.DefaultLimits)
+	tx.In[idx].PrevSats = amount
+	tx.In[idx].PrevScript = pbt.Hex(buildLock(ph))
+	interp.VerifyScript(build(ph), buildLock(ph), pass1Flags, rc, false, interp.DefaultLimits)
 	chk := interp.TxChecker{Tx: tx, Idx: idx, Amount: amount}
 	// pass 2: real signatures
 	real := map[int][]byte{}
 	for i, s := range slots {
 		code, ok := rc.codes[s.id]
 		if !ok {
-			code = lockBytes // the slot is never checked; sign something plausible
+			code = lockBody // the slot is never checked; sign something plausible
 		}
 		ht := s.ht
 		k := keys[s.key]
@@ -351,5 +364,7 @@ func SigScripts(t *rapid.T) SigProgram {
 	for _, s := range slots {
 		desc += "/" + s.class
 	}
-	return SigProgram{Unlock: build(real), Lock: lockBytes, Flags: flags, Tx: tx, Idx: idx, Amount: amount, Desc: desc}
+	finalLock := buildLock(real)
+	tx.In[idx].PrevScript = pbt.Hex(finalLock)
+	return SigProgram{Unlock: build(real), Lock: finalLock, Flags: flags, Tx: tx, Idx: idx, Amount: amount, Desc: desc}
 }
